@@ -47,6 +47,14 @@ Theorem C02_short_eq_any_char :
 Proof. exact split_short_eq_char. Qed.
 Print Assumptions C02_short_eq_any_char.
 
+(* ... and `-Xvalue=more`: everything after the CHARACTER X is the value, the `=` included *)
+Theorem C02_short_adj_eq_any_char :
+  forall n v1 v2 ch,
+    utf8_decode n = Some [ch] -> (hd 0%N n =? c_dash)%N = false -> no_eq v1 -> v1 <> [] ->
+    split_os_argument (c_dash :: n ++ v1 ++ c_eq :: v2) = Some (ATShort, n, Some (v1 ++ c_eq :: v2)).
+Proof. exact split_short_adj_eq_char. Qed.
+Print Assumptions C02_short_adj_eq_any_char.
+
 Example C02_example_cyrillic_short :
   split_os_argument [45; 208; 182; 61; 49]%N = Some (ATShort, [208; 182]%N, Some [49%N]).
 Proof. exact split_short_eq_cyrillic. Qed.
